@@ -240,6 +240,17 @@ func smtFaults() []smtFault {
 		{name: "did-malformed", apply: func(s *verifySetup, p *verifiable.Iden3SparseMerkleTreeProof, res *resolverCfg, r *Rng) {
 			p.IssuerData.ID = "did:"
 		}},
+		{name: "resolver-errors-for-the-proof-state-while-the-latest-state-is-published", apply: func(s *verifySetup, p *verifiable.Iden3SparseMerkleTreeProof, res *resolverCfg, r *Rng) {
+			// the resolver cannot say anything about the state named in the proof (an error), though it would call the identity's
+			// latest state published if asked about the DID alone: no answer for this state, so no acceptance
+			if p.IssuerData.State.Value != nil {
+				if h, err := merkletree.NewHashFromHex(*p.IssuerData.State.Value); err == nil {
+					*res = resolverCfg{mode: "published", perState: map[string]string{h.Hex(): "error"}}
+					return
+				}
+			}
+			res.mode = "error"
+		}},
 		{name: "resolver-unpublished", apply: func(s *verifySetup, p *verifiable.Iden3SparseMerkleTreeProof, res *resolverCfg, r *Rng) {
 			res.mode = "unpublished"
 		}},
